@@ -1,5 +1,6 @@
 mod codec;
 mod decoder;
+mod phyrx;
 mod util;
 
 use std::io::{BufRead, Write};
@@ -20,6 +21,7 @@ fn engine(name: &str) -> Option<(fn(&mut Vec<String>, u64, bool), Box<dyn Execut
     match name {
         "codec" => Some((codec::gen, Box::new(Stateless(codec::exec)))),
         "decoder" => Some((decoder::gen, Box::new(Stateless(decoder::exec)))),
+        "phyrx" => Some((phyrx::gen, Box::new(phyrx::Exec::new()))),
         _ => None,
     }
 }
